@@ -66,6 +66,15 @@ def gen_writes(rng, tier):
     d = ["up 3", "pub 2 k0 a0", "pub 3 k0 a1", "pub 1 k1 b0", "pub 2 k1 b1", "pub 3 k2 c0", "pub 3 k2 c1", "pub 2 k3 d0", "rm 3 k3",
          "pub 1 k3 d1", "pub 2 k4 e0", "pub 1 k4 e1", "settle 4000", "getall k0", "getall k1", "getall k2", "getall k3", "getall k4"]
     cases.append(Case("writes-every-node", d, True, "boundary"))
+    # directed (both tiers): a key is published through one node and removed through ANOTHER one right away - the node
+    # that takes the removal has, as a follower, not applied the publish yet (it learns the commit with the leader's next
+    # message); the acknowledged removal must still take effect everywhere.  All six ordered pairs of nodes.
+    pr = ["up 3"]
+    pairs = [(a, b) for a in (1, 2, 3) for b in (1, 2, 3) if a != b]
+    for n, (a, b) in enumerate(pairs):
+        pr += ["pub %d r%d x%d" % (a, n, n), "rm %d r%d" % (b, n)]
+    pr += ["settle 4000"] + ["getall r%d" % n for n in range(len(pairs))]
+    cases.append(Case("writes-removed-elsewhere", pr, True, "boundary"))
     # directed (both tiers): the leader is killed and followers are written to before a new leader exists (those writes
     # are refused or time out); after the election the survivors must agree, also on the keys of the refused writes
     d2 = ["up 3", "pub 1 k0 v0", "pub 2 k1 w0", "settle 1500", "kill 1", "pub 2 k0 v1", "pub 3 k1 w1", "pub 2 k2 x1",
@@ -164,6 +173,12 @@ def gen_registry(rng, tier):
          "kill 2", "start 2", "settle 8000", "listall svc3",
          "kill 3", "settle 30000", "listall svc3", "start 3", "settle 12000", "listall svc3"]
     cases.append(Case("registry-grpc-node-death", g, True, "boundary"))
+    # directed (both tiers): the node a gRPC client is connected to is restarted quickly (well inside the 15 s after which
+    # the others would declare it dead) and the client withdraws its instance meanwhile: the restarted node holds no
+    # gRPC instance at all - the others must still forget the instance they remember for that node's old connection
+    q = ["up 3", "greg c5 3 svc5 10.0.0.7 80", "settle 3000", "listall svc5", "kill 3", "gdereg c5 svc5 10.0.0.7 80", "start 3",
+         "settle 25000", "listall svc5"]
+    cases.append(Case("registry-grpc-quick-restart", q, True, "boundary"))
     # directed (both tiers): an address changes its persistence class by re-registration (persistent -> ephemeral through
     # another node, and back): the acknowledged registration must be listed everywhere afterwards
     fl = ["up 3", "reg 1 svc4 10.0.0.8 80 0", "reg 2 svc4 10.0.0.9 80 1", "settle 2500", "reg 2 svc4 10.0.0.8 80 1", "reg 3 svc4 10.0.0.9 80 0",
